@@ -33,9 +33,11 @@ _K_TECH = "TLA+ spec LogConc.tla model-checked by TLC (safety + liveness); TLC i
 
 CLAIMED = {
     "C01": dict(level="model_checking", text=_L_TEXT, note=_L_NOTE, technique=_L_TECH),
-    "C02": dict(level="model_checking", text=_L_TEXT, note=_L_NOTE, technique=_L_TECH),
+    "C02": dict(level="model_checking", text=_L_TEXT + "; in addition Apalache discharges an inductive invariant (heads = maximal entries, reverse index exact, causally closed) on the sets-only abstraction CoreInd.tla for every DAG over the bounded entry universe",
+                note=_L_NOTE, technique=_L_TECH + "; Apalache inductive-invariant check of CoreInd.tla (recorded in the evidence, never a verdict)"),
     "C03": dict(level="model_checking", text=_L_TEXT, note=_L_NOTE, technique=_L_TECH),
-    "C04": dict(level="model_checking", text=_L_TEXT, note=_L_NOTE, technique=_L_TECH),
+    "C04": dict(level="model_checking", text=_L_TEXT + "; appends to logs read back from the store (Load action) under every comparator, a hand-picked nine-branch fork, and an Apalache-discharged inductive invariant for the clock rule (ClockInd.tla: the time Append computes dominates every entry of the log, also after refused appends, identity changes and reloads)",
+                note=_L_NOTE, technique=_L_TECH + "; Apalache inductive-invariant check of ClockInd.tla (recorded in the evidence, never a verdict)"),
     "C05": dict(level="model_checking", text=_L_TEXT, note=_L_NOTE, technique=_L_TECH),
     "C06": dict(level="model_checking",
                 text=_L_TEXT + "; an adversarial replica (Tamper action) replaces any entry it holds by an unsigned / mis-signed / keyless / wrong-key / payload-edited / foreign-id copy at every position (candidate or not), access controllers deny a writer or everybody, and the exploration is repeated for the default, link-encrypting and legacy protobuf codecs; ground truth about validity comes from the script, never from Verify",
